@@ -233,17 +233,19 @@ Fixpoint dec_sinks (n : nat) (i : nat) (l : list N) (f : nat -> snk) : (nat -> s
 Definition st0 (clock0 : N) (nl ns : nat) (lgf : nat -> lgr) (skf : nat -> snk) : st :=
   {| clock := clock0; th := fun _ => thr0; registered := []; newflag := false; invalid_cnt := 0; cache := [];
      pc := PIdle; tsnow := 0; lg := lgf; sk := skf; nsinks := ns; nloggers := nl; flags := []; obs := [];
-     issued := fun _ => []; delivered := fun _ => []; plog := [] |}.
+     issued := fun _ => []; delivered := fun _ => []; plog := [];
+     gh := {| g_denied := 0; g_reported := 0; g_lost := 0 |} |}.
 
 (* case: be <dropping> <capk> <batch> <on_batch> <on_drain> <tinit> <soft> <hard> <grace> <bits> <refresh2>
-        <catchall> <clock0> <nloggers> {level nsinks sinks..} <nsinks> {level nthrow idx..} commands... *)
+        <catchall> <report_first> <clock0> <nloggers> {level nsinks sinks..} <nsinks> {level nthrow idx..} commands... *)
 Definition be_run_enc (l : list N) : list N :=
   match l with
-  | dr :: capk :: batch :: ob :: od :: tinit :: soft :: hard :: grace :: bits :: rf2 :: ca :: clock0 :: nl :: r =>
+  | dr :: capk :: batch :: ob :: od :: tinit :: soft :: hard :: grace :: bits :: rf2 :: ca :: rfirst :: clock0 :: nl :: r =>
       let K := {| c_cap := 2 ^ capk; c_batch := batch;
                   c_pub := {| on_batch := negb (ob =? 0); on_drain := negb (od =? 0) |};
                   c_dropping := negb (dr =? 0); c_tinit := tinit; c_soft := soft; c_hard := hard;
-                  c_grace := grace; c_bits := bits; c_refresh2 := negb (rf2 =? 0); c_catch_all := negb (ca =? 0) |} in
+                  c_grace := grace; c_bits := bits; c_refresh2 := negb (rf2 =? 0); c_catch_all := negb (ca =? 0);
+                  c_report_first := negb (rfirst =? 0) |} in
       let (lgf, r1) := dec_loggers (N.to_nat nl) 0 r (fun _ => {| llevel := 0; lsinks := [] |}) in
       match r1 with
       | ns :: r2 =>
